@@ -392,9 +392,90 @@ def clause_d(repo, chk):
     chk.require_count("D-bound", 5)
 
 
+# --------------------------------------------------------------------------- (e)
+def clause_e(repo, chk):
+    """bulk re-randomisation never touches a fixed parameter"""
+    chk.rule("E-fixed", "in VarsManager.refresh_vars every assignment to self.variables[name] is guarded by `name in self.trainable_vars` (if-test, continue-guard, or a loop over the trainable names): a fixed parameter changes only when explicitly assigned")
+    fn = repo.fn("%s::VarsManager.refresh_vars" % VAR)
+    from ..model import parent_map
+
+    pm = parent_map(fn.node)
+    n_assign = 0
+    for n in walk_local(fn.node):
+        if not (isinstance(n, ast.Call) and isinstance(n.func, ast.Attribute) and n.func.attr in ("assign", "assign_add", "assign_sub")):
+            continue
+        tgt = n.func.value
+        if not (isinstance(tgt, ast.Subscript) and norm_text(tgt.value) == "self.variables"):
+            continue
+        n_assign += 1
+        key = norm_text(tgt.slice)
+        guarded = None
+        cur = n
+        while cur in pm and guarded is None:
+            par = pm[cur]
+            if isinstance(par, ast.If) and cur in par.body:
+                t = par.test
+                for x in ast.walk(t):
+                    if isinstance(x, ast.Compare) and len(x.ops) == 1 and isinstance(x.ops[0], ast.In) and norm_text(x.left) == key and norm_text(x.comparators[0]) == "self.trainable_vars":
+                        guarded = "if %s" % norm_text(t)
+            if isinstance(par, (ast.For,)) and cur in par.body:
+                if norm_text(par.target) == key and "self.trainable_vars" in norm_text(par.iter) and ("&" in norm_text(par.iter) or norm_text(par.iter) == "self.trainable_vars"):
+                    guarded = "for %s in %s" % (key, norm_text(par.iter))
+                else:
+                    # continue-guard earlier in the same loop body
+                    idx = par.body.index(cur) if cur in par.body else None
+                    for st in par.body[: idx if idx is not None else 0]:
+                        if isinstance(st, ast.If) and len(st.body) == 1 and isinstance(st.body[0], ast.Continue):
+                            tt = st.test
+                            if isinstance(tt, ast.Compare) and len(tt.ops) == 1 and isinstance(tt.ops[0], ast.NotIn) and norm_text(tt.left) == key and norm_text(tt.comparators[0]) == "self.trainable_vars":
+                                guarded = "continue-guard `%s`" % norm_text(tt)
+            cur = par
+        chk.instance("E-fixed", "refresh_vars: `%s` guarded by %s" % (norm_text(n)[:70], guarded or "NOTHING"))
+        if guarded is None:
+            chk.violation("E-fixed", fn.key, "unguarded:%s" % key, "`%s` re-draws self.variables[%s] without checking that %s is trainable: a fixed parameter is silently re-randomised" % (norm_text(n)[:80], key, key), file=VAR, line=n.lineno)
+    if n_assign < 6:
+        raise AnalysisError("refresh_vars: only %d variable assignments found" % n_assign)
+
+
+# --------------------------------------------------------------------------- (f)
+def clause_f(repo, chk):
+    """coordinate switches flag every member of a tie group"""
+    chk.rule("F-tie", "rp2xy and xy2rp propagate the polar flag to every member of the tie group of `name` (inner loop over the whole group, no break inside it) with the same value they set for `name`")
+    shapes = {}
+    for fname, flag in (("rp2xy", "False"), ("xy2rp", "True")):
+        fn = repo.fn("%s::VarsManager.%s" % (VAR, fname))
+        loops = [n for n in fn.node.body if isinstance(n, ast.For) and "same_list" in norm_text(n.iter)]
+        if len(loops) != 1:
+            raise AnalysisError("%s: tie-group loop not found" % fname)
+        lp = loops[0]
+        grp = norm_text(lp.target)
+        ok = False
+        why = "no `if name in <group>` test"
+        for st in lp.body:
+            if isinstance(st, ast.If) and norm_text(st.test) == "name in %s" % grp:
+                inner = [x for x in st.body if isinstance(x, ast.For)]
+                brk_outer = any(isinstance(x, ast.Break) for x in st.body)
+                if len(inner) == 1 and norm_text(inner[0].iter) == grp:
+                    iv = norm_text(inner[0].target)
+                    body = inner[0].body
+                    only_assign = len(body) == 1 and isinstance(body[0], ast.Assign) and norm_text(body[0].targets[0]) == "self.complex_vars[%s]" % iv and norm_text(body[0].value) == flag
+                    no_break = not any(isinstance(x, (ast.Break, ast.Continue, ast.Return)) for b in body for x in ast.walk(b)) and not inner[0].orelse
+                    ok = only_assign and no_break
+                    why = "inner loop body must be exactly `self.complex_vars[%s] = %s` without break/continue" % (iv, flag)
+                else:
+                    why = "no inner loop over the whole tie group"
+        own = [n for n in fn.node.body if isinstance(n, ast.Assign) and norm_text(n.targets[0]) == "self.complex_vars[name]"]
+        own_ok = bool(own) and norm_text(own[0].value) == flag
+        chk.instance("F-tie", "%s: flag %s set for `name`: %s; propagated to the whole tie group: %s" % (fname, flag, own_ok, ok))
+        if not (ok and own_ok):
+            chk.violation("F-tie", fn.key, "tie-flag", "%s must flag every member of the tie group of `name` as %s (%s)" % (fname, "polar" if flag == "True" else "Cartesian", why), file=VAR, line=lp.lineno)
+
+
 def run(repo, chk, tier):
     chk.assume("history-level invariants (sequences of operations) are not decided; each clause is a necessary condition on a single operation")
     clause_a(repo, chk)
     clause_b(repo, chk)
     clause_c(repo, chk)
     clause_d(repo, chk)
+    clause_e(repo, chk)
+    clause_f(repo, chk)
